@@ -56,16 +56,6 @@ def _(self, flag):
     ensures(self.metadata == rec_set(old(self.metadata), "volatile", flag) and result is self)
 
 
-@assumed("liquer.state.State.next_state", params=dict(self=ST), returns=ST, returns_fresh=True)
-def _(self):
-    ensures(fresh_ref(result) and result.metadata == self.metadata)
-
-
-@assumed("liquer.state.State.clone", params=dict(self=ST), returns=ST, returns_fresh=True)
-def _(self):
-    ensures(fresh_ref(result) and result.data == self.data and result.metadata == self.metadata and not result.metadata_only)
-
-
 OPAQUE_EA = {"debug": NoneT, "info": NoneT, "warning": NoneT, "store_metadata": NoneT, "command_registry": Any,
              "resolve_command": Tuple(Opt(Str), Opt(CMD), Opt(Ref("CmdMeta"))), "add_command_dependency": NoneT,
              "format_exc": Str, "to_list": Any, "mimetype": Opt(Str), "_asdict": (Any, ["AttributeError"]), "encode": Str,
